@@ -404,7 +404,7 @@ pub fn run_c12(tier: &str, seed: u64) -> campaign::CampaignResult {
     // exhaustive kill-point enumeration: thorough = every k of every build of short histories
     // (version a -> version b -> back to a), quick = a sample of them
     let mut enumerated: Vec<Case> = Vec::new();
-    let n_enum = if thorough { cases.len().min(20) } else { cases.len().min(6) };
+    let n_enum = if thorough { cases.len().min(8) } else { cases.len().min(6) };
     for c in cases.iter().take(n_enum) {
         if c.versions.len() < 2 {
             continue;
